@@ -269,6 +269,11 @@ pub fn gen_browse_world(prop: &str, flavor: Flavor, seed: u64, index: u64, tier:
             instances.push(json!({"peer": p, "instance": ir.inst.dotted(), "host": ir.host.dotted(), "ty": ty}));
         }
         if answers_queries {
+            if flavor == Flavor::C05 && rng.below(5) == 0 {
+                // the responder answers for the service but not for the host: address questions (refresh queries and
+                // the address part of a verify request) stay unanswered
+                all_recs.retain(|r| !matches!(r.ty, wire::T_A | wire::T_AAAA));
+            }
             peer.responder = Some(ResponderCfg { records: all_recs, delay_ms: 20 + rng.below(100), honor_known_answers: rng.bool(), additionals: rng.bool(), active: true, max_answers: None, skip_first: 0, conflict_probes: 0 });
         }
         s.peers.push(peer);
@@ -898,6 +903,39 @@ impl Property for C05 {
                         }
                     }
                 }
+                // verify requests that stay unanswered: the SRV records of the instance, and the addresses of the host of
+                // an SRV that was in the cache when the request was executed, end at the deadline. (The possible view of
+                // the model ignores verify deadlines, so the two blocks above never predict these.) "Unanswered" is
+                // judged per record set: no copy of any record of the set is read from just before the request until
+                // just after the deadline, so that nothing can have restored or re-created a record of the set.
+                for v in m.verifies.iter().filter(|v| v.instance == inst_s) {
+                    let e = v.t + v.timeout_ms;
+                    if e + sl >= w.close_t || e + sl >= horizon || v.t <= w.open_t + sl + 1 {
+                        continue;
+                    }
+                    let lo = v.t - sl - 1;
+                    let quiet = |idxs: &[usize]| !idxs.iter().any(|&i| m.recs[i].arrivals.iter().any(|a| a.t >= lo && a.t <= e + sl));
+                    let ends_at_deadline = |idxs: &[usize]| idxs.iter().any(|&i| m.intervals(i, None, Mode::Definitely).iter().any(|&(st, en)| st < lo && en == e));
+                    if !m.live_at(pi, e, None, Mode::Definitely, sl + 1) {
+                        continue;
+                    }
+                    if quiet(&srvs) && ends_at_deadline(&srvs) {
+                        predict.push((e, "verify"));
+                        continue;
+                    }
+                    for &si in &srvs {
+                        // the SRV was in the cache when the request was executed and stays live beyond the deadline
+                        let in_cache = m.intervals(si, None, Mode::Definitely).iter().any(|&(st, en)| st < lo && en >= v.t);
+                        if !in_cache || !m.live_at(si, e, None, Mode::Definitely, sl + 1) {
+                            continue;
+                        }
+                        let Some((host, _)) = srv_target(&m.recs[si].rec) else { continue };
+                        let addrs: Vec<usize> = m.find(host, wire::T_A).into_iter().chain(m.find(host, wire::T_AAAA)).collect();
+                        if quiet(&addrs) && ends_at_deadline(&addrs) {
+                            predict.push((e, "verify"));
+                        }
+                    }
+                }
                 predict.sort();
                 predict.dedup();
                 for (e, why) in predict {
@@ -930,7 +968,13 @@ impl Property for C05 {
                     if !rep_before {
                         continue;
                     }
-                    let last_rep = reported.iter().copied().filter(|&t| t <= e).max().unwrap_or(0);
+                    // (for the end of an SRV or address: not removed since it was last reported *resolved*; an instance that
+                    // was merely found again after a removal has nothing to be removed from)
+                    let last_rep = if matches!(why, "goodbye" | "ptr-expiry") {
+                        reported.iter().copied().filter(|&t| t <= e).max().unwrap_or(0)
+                    } else {
+                        evs.iter().filter(|x| x.t <= e && matches!(&x.ev, EvKind::Resolved(r) if r.fullname == inst_s)).map(|x| x.t).max().unwrap_or(0)
+                    };
                     let removed_since = rem.iter().any(|&t| t >= last_rep && t < e.saturating_sub(1000));
                     if removed_since {
                         continue;
